@@ -1168,7 +1168,9 @@ func (vx *Vaxis) handleSequence(seq ansi.Sequence) {
 				log.Error("invalid OSC 176 payload")
 				return
 			}
-			vx.PostEvent(appID(vals[1]))
+			// like every other reply: with PostEvent a full queue lost it and,
+			// at start up, the capability with it
+			vx.PostEventBlocking(appID(vals[1]))
 		}
 	}
 }
